@@ -439,6 +439,33 @@ def main(argv=None):
             regress_viol, nreg, reg_err = {}, 0, repr(e)
     if reg_err:
         errors.append("regress: " + reg_err)
+
+    def _missing(results_so_far):
+        seen = {}
+        broken = set()
+        for r in results_so_far:
+            if r["error"] or r.get("inconclusive"):
+                broken.add(r["part"])
+                continue
+            seen.setdefault(r["part"], set()).update(k for k, v in r["labels"].items() if v)
+        return [(i, p) for i, p in parts if p.strategy is not None and p.name not in broken
+                and any(lb not in seen.get(p.name, set()) for lb in p.essential)]
+
+    # top-up: a generated part whose essential classes have not all shown up yet gets further shards (fresh derived seeds) before
+    # the run is declared vacuous - with a few hundred cases per shard a class of probability ~1% is missed at some seeds
+    topup_rounds = 0
+    for rnd in range(4):
+        todo = _missing(results)
+        if not todo:
+            break
+        topup_rounds += 1
+        extra = []
+        for i, p in todo:
+            ns = p.shards[tier]
+            for s in range(min(ns, 4)):
+                extra.append((modname, i, tier, seed, ns + rnd * 4 + s, ns, budget, ()))
+        with ctx.Pool(max(1, min(len(extra), nproc)), maxtasksperchild=1) as pool:
+            results = results + pool.map(_shard_main, extra, chunksize=1)
     for r in results:
         if r["error"]:
             errors.append("part %s shard %s: %s" % (r["part"], r["shard"], r["error"]))
@@ -535,6 +562,7 @@ def main(argv=None):
         "harness_errors": len(errors),
         "shards": {p.name: p.shards[tier] for _, p in parts},
         "hypothesis_seed_rule": "seed = VERIF_SEED*1000 + shard",
+        "essential_class_topup_rounds": topup_rounds,
     }
     try:
         write_evidence(prop, tier, seed, getattr(mod, "LEVEL", "exploration"), coverage,
